@@ -5,6 +5,7 @@ package constant
 import (
 	"fmt"
 	"math"
+	"math/big"
 
 	"github.com/llir/llvm/ir/types"
 )
@@ -140,6 +141,10 @@ var hC10Table = []struct {
 	hex  bool   // the literal is already in the printer's canonical hex form
 	want string // the expected printed literal, where it follows from IEEE 754 alone ("" = not stated)
 }{
+	// float powers of two whose shortest 24-bit decimal is not the exact value
+	{types.FloatKindFloat, "0x4180000000000000", false, ""}, {types.FloatKindFloat, "0x4190000000000000", false, ""}, {types.FloatKindFloat, "0xC180000000000000", false, ""},
+	{types.FloatKindFloat, "33554432.0", false, ""}, {types.FloatKindHalf, "33824.0", false, ""}, {types.FloatKindFloat, "0x41E0000000000000", false, ""},
+	{types.FloatKindFloat, "134217728.0", false, ""}, {types.FloatKindFloat, "16777216.0", false, ""},
 	// half written in the 16-digit double layout: subnormal, smallest normal, largest, negative, infinity, NaN
 	{types.FloatKindHalf, "0x3F00000000000000", false, "0xH0200"}, {types.FloatKindHalf, "0x3F08000000000000", false, "0xH0300"},
 	{types.FloatKindHalf, "0x3E70000000000000", false, "0xH0001"}, {types.FloatKindHalf, "0x3F0FF80000000000", false, "0xH03FF"},
@@ -204,6 +209,14 @@ func VfC10_Table() {
 		}
 	}
 	if dec {
+		// LLVM reads a decimal literal as a double and then requires it to be
+		// exact in the type: the printed decimal, read as a double, must be the
+		// value itself
+		asDouble, _, perr := big.ParseFloat(out, 10, 53, big.ToNearestEven)
+		vfAssert("C10.table.decimal-parses", perr == nil)
+		if perr == nil {
+			vfAssert("C10.table.decimal-denotes-the-value-under-llvm-reading", asDouble.Cmp(c.X) == 0)
+		}
 		hasDot := false
 		for i := 0; i < len(out); i++ {
 			if out[i] == '.' {
